@@ -27,6 +27,9 @@ type c12Cell struct {
 	X, Y    uint16
 	PC      uint16 `json:"pc"`
 	Operand uint32 `json:"operand"` // three operand bytes, little-endian
+	// Int: 1 = TriggerIRQ() before the step, 2 = NMI pending; the interrupt vectors point to $00:2000 where the same
+	// opcode sits, so the step that enters the handler executes it there
+	Int byte `json:"int,omitempty"`
 }
 
 func c12CellCheck(c c12Cell) error {
@@ -46,9 +49,27 @@ func c12CellCheck(c c12Cell) error {
 	for i := uint16(0); i < 3; i++ {
 		mem.Poke(base|uint32(c.PC+1+i), byte(c.Operand>>(8*i)))
 	}
+	if c.Int != 0 {
+		for _, vec := range []uint32{0xFFEE, 0xFFEA, 0xFFFE, 0xFFFA} {
+			mem.Poke(vec, 0x00)
+			mem.Poke(vec+1, 0x20)
+		}
+		// (the handler is placed in bank 0 and in the current program bank: this implementation's NMI entry keeps K)
+		for _, hb := range []uint32{0, base} {
+			mem.Poke(hb|0x2000, c.Op)
+			for i := uint32(0); i < 3; i++ {
+				mem.Poke(hb|(0x2001+i), byte(c.Operand>>(8*i)))
+			}
+		}
+		if c.Int == 1 {
+			cpu.TriggerIRQ()
+		} else {
+			cpu.SetInterrupt(interruptNMI)
+		}
+	}
 	n, stopped, p := cpu.Step()
 	if p != nil {
-		return fmt.Errorf("%s opcode %02x: Step panicked: %v", c.Impl, c.Op, p)
+		return fmt.Errorf("%s opcode %02x (interrupt request %d): Step panicked: %v", c.Impl, c.Op, c.Int, p)
 	}
 	after := cpu.Raw()
 	if n < 1 {
@@ -58,7 +79,7 @@ func c12CellCheck(c c12Cell) error {
 		return fmt.Errorf("%s opcode %02x: Step returned %d cycles but CPU.Cycles = %d", c.Impl, c.Op, n, after.Cycles)
 	}
 	if after.AllCycles != 1000+uint64(n) {
-		return fmt.Errorf("%s opcode %02x: AllCycles went from 1000 to %d, reported cycles %d", c.Impl, c.Op, after.AllCycles, n)
+		return fmt.Errorf("%s opcode %02x (P=%02x E=%v, interrupt request %d): AllCycles went from 1000 to %d, reported cycles %d", c.Impl, c.Op, c.P, c.E, c.Int, after.AllCycles, n)
 	}
 	if stopped != (c.Op == 0xDB) || after.Stopped != (c.Op == 0xDB) {
 		return fmt.Errorf("%s opcode %02x: stop condition reported %v (Stopped field %v), want %v", c.Impl, c.Op, stopped, after.Stopped, c.Op == 0xDB)
@@ -123,6 +144,21 @@ func (w *countWriter) Write(p []byte) (int, error) {
 	}
 	return len(p), nil
 }
+
+// growWriter is a trace sink that also offers Reserve/Commit the way a bytes.Buffer-backed logger does: Reserve refuses
+// negative sizes (bytes.Buffer.Grow panics on them).
+type growWriter struct {
+	countWriter
+	reserved int
+}
+
+func (w *growWriter) Reserve(n int) {
+	if n < 0 {
+		panic(fmt.Sprintf("Reserve(%d): negative size", n))
+	}
+	w.reserved += n
+}
+func (w *growWriter) Commit() {}
 
 func c12RunCheck(c c12RunCase) error {
 	twin, _ := cpus()
@@ -236,6 +272,13 @@ func c12RunCheck(c c12RunCase) error {
 	sys.Logger = nil
 	if c.Logger {
 		sys.Logger = lw
+		if c.MemSeed&1 == 1 {
+			// every other traced case: the sink also has Reserve/Commit
+			gw := &growWriter{}
+			gw.onWrite = lw.onWrite
+			lw = &gw.countWriter
+			sys.Logger = gw
+		}
 	}
 	// clear the access log whenever a new instruction starts: approximated by clearing in the logger and
 	// before the run; without a logger the "before the fetch" check only applies to the first step.
@@ -307,9 +350,14 @@ func c12RunCheck(c c12RunCase) error {
 			if ma.Peek(at) == 0x42 {
 				want = append(want, ma.Peek(at&0xff0000|uint32(uint16(at)+1)))
 			}
+			mis := ma.Mis
 			n, _, p := alt.Step()
 			if p != nil || n < 1 {
 				break
+			}
+			if ma.Peek(at) == 0x42 && ma.Mis > mis {
+				alt.C.OnWDM = nil
+				return fmt.Errorf("cpualt executing the WDM at $%06X %s: on a bus with several devices the callback would not receive the operand", at, ma.BusFault())
 			}
 			cyc += uint64(n)
 		}
@@ -329,7 +377,12 @@ func c12RunCheck(c c12RunCase) error {
 			return fmt.Errorf("CPU was stopped by STP but the next Step reported stopped=false")
 		}
 		if stoppedBefore {
-			// only Reset ends the stop condition: an interrupt taken in between does not
+			// only Reset ends the stop condition: moving the program counter through the System does not
+			sys.SetPC(sys.GetPC())
+			if _, st, p = scpu.Step(); p == nil && !st {
+				return fmt.Errorf("CPU was stopped by STP; after System.SetPC the next Step reported stopped=false although no Reset happened")
+			}
+			// ... and an interrupt taken in between does not
 			scpu.SetInterrupt(interruptNMI)
 			_, st, p = scpu.Step()
 			if p == nil && !st {
@@ -383,7 +436,7 @@ func init() { rig.RegisterReplay("C12", c12Replay) }
 
 func TestC12(t *testing.T) {
 	rig.Main(t, "C12", "part A (complete): every opcode x {E=1; E=0 x M x X} x DL zero/non-zero x index values {0,1,$FF} x operand low byte {00,FF} x flags all-clear/all-set "+
-		"(both branch outcomes) x displacement {+2,+$7F,-$80} x PC {page start, page end} on both interpreters: cycles >= 1, == CPU.Cycles, AllCycles += cycles, stop flag only for STP. "+
+		"(both branch outcomes) x displacement {+2,+$7F,-$80} x PC {page start, page end} on both interpreters: cycles >= 1, == CPU.Cycles, AllCycles += cycles, stop flag only for STP; plus every opcode as the first instruction of an interrupt handler entered by that step (IRQ with I clear/set, NMI). "+
 		"Parts B-D (rapid): JIT-synthesised programs on emulator.System (flat sparse bus) with RunUntil(target,max) for targets on/off the path and budgets 0, 1, exact-1/+0/+1, large, "+
 		"compared with the specification loop run on a twin CPU; OnPC/OnWDM call counts; Logger.Write counts; STP/Reset.  Non-trivial (B-D) = the target or the budget cut the run short; "+
 		"distinct = enumerated cell, or hash(case).",
@@ -426,6 +479,32 @@ func TestC12(t *testing.T) {
 						}
 					}
 				}
+				// the step that enters an interrupt handler: every opcode as the handler's first instruction x modes x I flag x IRQ/NMI
+				var ni int64
+				for _, impl := range []string{"cpu65c816", "cpualt"} {
+					for op := 0; op < 256 && !fail; op++ {
+						for _, mode := range []struct {
+							e bool
+							p byte
+						}{{true, 0x30}, {false, 0x00}, {false, 0x10}, {false, 0x20}, {false, 0x30}} {
+							for _, fl := range []byte{0x00, 0x04, 0xCB, 0xCF} {
+								for _, in := range []byte{1, 2} {
+									operand := uint32(0x7F1200)
+									if md := wdc.Optab[op].Md; md == wdc.MRel8 || md == wdc.MRel16 {
+										operand = 2
+									}
+									c := c12Cell{Impl: impl, Op: byte(op), P: mode.p | fl, E: mode.e, PC: 0x1000, Operand: operand, Int: in}
+									ni++
+									if !r.CheckSweep("cell", c, func() error { return c12CellCheck(c) }) {
+										fail = true
+									}
+								}
+							}
+						}
+					}
+				}
+				n += ni
+				ev.ClassN("A/cells-with-an-interrupt-request", ni)
 				ev.Bulk(n, n)
 				ev.ClassN("A/cycle-cells", n)
 				ev.Sample(c12Cell{Impl: "cpualt", Op: 0xBC, P: 0x30, X: 0xFF, Y: 0xFF, PC: 0x10F0, Operand: 0x7F12FF})
